@@ -81,6 +81,9 @@ CURATED = ["a", "A", "é", "É", "É", "ß", "SS", "ss", "ẞ", "İ", "i̇", "I"
            "가", "가", "각", "각", "Å", "Å", "Å", "Ω", "Ω", "q̣̇", "q̣̇", "ạ̈", "ạ̈", "ǆ", "ǅ", "Ǆ", "ŉ", "ʼn", "ΐ", "ΐ", "և", "ԵՒ", "ꭰ", "Ꭰ", "x", "y", "k", "K", "ﬀ", "ff", "㎑", "kHz", "①", "1"]
 
 
+NUMLIKE = ["1", "01", "001", "1.0", "1.", "1e0", "1E0", "+1", "-1", "100", "1e2", "1.0e2", "0", "-0", "0.0", "0x10", "16", "1a", "01a", "null", "NULL", "true", "1"]
+
+
 def pair_cmds(x, y):
     nx, ny = "_" + x, "_" + y
     return [{"op": "normalize", "s": x}, {"op": "normalize", "s": y},
@@ -127,6 +130,11 @@ def c09(tier, replay=None):
         for y in {ch.upper(), ch.lower(), fold_full(ch), fold_full(ch).upper(), unicodedata.normalize("NFD", ch), unicodedata.normalize("NFC", ch), ch.swapcase(), ch + "̀"}:
             if y != ch and y:
                 pairs.append((ch, y))
+    # spellings that a storage layer with typed columns might conflate although they are different strings: numbers in
+    # several notations, and words of the query language
+    for i, x in enumerate(NUMLIKE):
+        for y in NUMLIKE[i + 1:]:
+            pairs.append((x, y))
     pairs = list(dict.fromkeys(pairs))
 
     def run_valid(ch):
